@@ -130,12 +130,23 @@ Definition sorted_entries (a : assets) : list (asset_class * Z) :=
 
 Definition assets_expr (a : assets) : expr := EAssets (assets_to_exprs (sorted_entries a)).
 
-Definition expr_assets (xs : list (expr * expr * expr)) : outcome assets := of_exprs (to_asset_exprs xs).
-
-(** impl Arithmetic for T: Into<CanonicalAssets> — i128 overflow inside CanonicalAssets is
-    reported as Overflow (dev) by [chk_assets] *)
+(** CanonicalAssets::checked_add / checked_neg: an amount outside i128 is an error *)
 Definition chk_assets (site : string) (a : assets) : outcome assets :=
-  if all_in_i128 a then Ok a else Overflow site.
+  if all_in_i128 a then Ok a else Err "InvalidBinaryOp".
+
+(** assets_into_canonical: every amount must be a number, and the sum over the list is
+    checked at every step *)
+Fixpoint expr_assets_from (acc : assets) (l : list asset_expr) : outcome assets :=
+  match l with
+  | [] => Ok acc
+  | e :: r =>
+    match snd e with
+    | ANumber _ => a <- of_expr e ;; s <- chk_assets "sum" (a_add_raw acc a) ;; expr_assets_from (strip s) r
+    | _ => Err "InvalidUnaryOp"
+    end
+  end.
+Definition expr_assets (xs : list (expr * expr * expr)) : outcome assets :=
+  expr_assets_from a_empty (to_asset_exprs xs).
 
 Definition neg_expr (e : expr) : outcome expr :=
   match e with
@@ -323,7 +334,7 @@ Definition reduce_self (e : expr) : outcome expr :=
   | EProperty a i => r <- index_or_err a i ;; Ok (EBNoOp r)
   | EIntoAssets a => r <- into_assets a ;; Ok (ECNoOp r)
   | EIntoDatum a => r <- into_datum pick a ;; Ok (ECNoOp r)
-  | EIntoScript _ => Panic "Coerce::reduce_self IntoScript todo!"
+  | EIntoScript _ => Err "InvalidUnaryOp"        (* nothing produces this coercion yet *)
   | _ => Ok e
   end.
 
